@@ -2,6 +2,8 @@ import OrbitModel.Generated.Gen
 import OrbitModel.Model.Status
 import OrbitModel.Model.Index
 import OrbitModel.Model.Codec
+import OrbitModel.Model.Store
+import OrbitModel.Model.Snapshot
 /-!
 # The regenerated Go fragments equal the hand-written model (tie 2)
 
@@ -51,4 +53,26 @@ theorem gen_frameRefused (len64 : BitVec 64) :
   by_cases h : (len64.toNat : Int) > Codec.maxFrame
   · rw [if_pos h]; simp [h]
   · rw [if_neg h]; simp [h]
+/-- the limit normalisation at the top of `Load` in the Go text of this run is the model's `loadAmount` -/
+theorem gen_loadAmount (amount : Int) (mh : Option Int) :
+    Gen.genLoadAmount mh.isSome (mh.getD 0) amount = loadAmount amount mh := by
+  unfold Gen.genLoadAmount loadAmount
+  cases mh with
+  | none =>
+    simp only [Option.isSome_none, Bool.and_false, Bool.false_eq_true, if_false]
+    by_cases h : amount ≤ 0 <;> simp [h]
+  | some m =>
+    simp only [Option.isSome_some, Bool.and_true, Option.getD_some, decide_eq_true_eq]
+
+/-- the size guards of `SaveSnapshot` in the Go text of this run are the model's `encodeRec` refusal -/
+theorem gen_snapRefused (r : List Nat) :
+    Gen.genSnapEntryRefused r.length = (Snap.encodeRec r).isNone ∧
+    Gen.genSnapHeaderRefused r.length = (Snap.encodeRec r).isNone := by
+  unfold Gen.genSnapEntryRefused Gen.genSnapHeaderRefused Snap.encodeRec Snap.maxRec
+  by_cases h : r.length > 65535
+  · have h' : (r.length : Int) > 65535 := by omega
+    simp [h, h']
+  · have h' : ¬ (r.length : Int) > 65535 := by omega
+    simp [h, h']
+
 end Orbit
